@@ -34,6 +34,7 @@ import EtkVerif.Asm.Refine
 import EtkVerif.Asm.Corollaries
 import EtkVerif.Asm.ErrorKinds
 import EtkVerif.Asm.ErrorKinds2
+import EtkVerif.Asm.ErrorKinds4
 namespace EtkVerif.C13
 open Asm
 
@@ -167,6 +168,48 @@ theorem C13_error_recursion_limit (rnd : Nat → Nat) (fuel k : Nat) (ops : RawO
     ∃ (sub : RawOps) (ms : List (String × MacroDef)) (d : MacroDef),
       SubScope sub ops ∧ declareMacros sub.toList [] = .ok ms ∧ lookupMacro ms n = some d :=
   macroRecursionLimit_provenance rnd fuel k ops n h
+
+/-! ### use-site forms: the scope that lacks (has) the definition is the scope whose text contains the offending use
+
+The provenance theorems above name SOME scope; an unrelated scope could satisfy them (audit 3).  In the following the
+same scope `sub` — the program or a nested `%include` scope — both contains the use (in a statement, an invocation
+argument or the body of one of its macro definitions: `AOp.callsMacro`, `AOp.invokesWith`, `AOp.mentionsVar`) and
+lacks / has the definition. -/
+
+/-- `UndeclaredExpressionMacro n`: some scope calls `n(…)` and declares no expression macro `n` -/
+theorem C13_error_undeclared_expression_macro_use (rnd : Nat → Nat) (fuel k : Nat) (ops : RawOps) (n : String)
+    (h : assemble rnd fuel { fresh := k } ops = .error (.undeclaredExpressionMacro n)) :
+    ∃ (sub : RawOps) (ms : List (String × MacroDef)) (o : AOp),
+      SubScope sub ops ∧ declareMacros sub.toList [] = .ok ms ∧
+      (∀ ps body, lookupMacro ms n ≠ some (.expr ps body)) ∧
+      RawOp.op o ∈ sub.toList ∧ o.callsMacro n = true :=
+  undeclaredExpressionMacro_use rnd fuel k ops n h
+
+/-- `UndeclaredInstructionMacro n`: some scope invokes `%n(…)` and declares no instruction macro `n` -/
+theorem C13_error_undeclared_macro_use (rnd : Nat → Nat) (fuel k : Nat) (ops : RawOps) (n : String)
+    (h : assemble rnd fuel { fresh := k } ops = .error (.undeclaredInstructionMacro n)) :
+    ∃ (sub : RawOps) (ms : List (String × MacroDef)) (o : AOp) (a : Nat),
+      SubScope sub ops ∧ declareMacros sub.toList [] = .ok ms ∧
+      (∀ ps body, lookupMacro ms n ≠ some (.instr ps body)) ∧
+      RawOp.op o ∈ sub.toList ∧ o.invokesWith n a = true :=
+  undeclaredInstructionMacro_use rnd fuel k ops n h
+
+/-- `MacroArgumentCount n`: some scope declares the instruction macro `n` with `ps` parameters and invokes it with a
+different number of arguments -/
+theorem C13_error_argument_count_use (rnd : Nat → Nat) (fuel k : Nat) (ops : RawOps) (n : String)
+    (h : assemble rnd fuel { fresh := k } ops = .error (.macroArgumentCount n)) :
+    ∃ (sub : RawOps) (ms : List (String × MacroDef)) (ps : List String) (body : List AOp) (o : AOp) (a : Nat),
+      SubScope sub ops ∧ declareMacros sub.toList [] = .ok ms ∧
+      lookupMacro ms n = some (.instr ps body) ∧
+      RawOp.op o ∈ sub.toList ∧ o.invokesWith n a = true ∧ a ≠ ps.length :=
+  macroArgumentCount_use rnd fuel k ops n h
+
+/-- `UndeclaredVariableMacro v`: `$v` occurs literally in the text of some scope (operand, invocation argument, or the
+body of one of its macro definitions) -/
+theorem C13_error_undeclared_variable (rnd : Nat → Nat) (fuel k : Nat) (ops : RawOps) (v : String)
+    (h : assemble rnd fuel { fresh := k } ops = .error (.undeclaredVariableMacro v)) :
+    ∃ (sub : RawOps) (o : AOp), SubScope sub ops ∧ RawOp.op o ∈ sub.toList ∧ o.mentionsVar v = true :=
+  undeclaredVariable_provenance rnd fuel k ops v h
 
 /-! ### Finding D28: too few arguments for an expression macro are accepted when the missing parameter is never read
 
